@@ -462,6 +462,10 @@ func (w *responseWriter) WriteMsg(m *dns.Msg) error {
 	// excluded, or there were none to begin with — fall through
 	// to the synthesis path.
 	strippedAAAA := 0
+	// What the reply carried before anything is filtered out of it: the
+	// records the filter removes are still a piece the synthesised answer
+	// is composed from, and its lifetime bounds the answer's.
+	pieceTTL, havePiece := smallestRecordTTL(m)
 	if m.Rcode == dns.RcodeSuccess {
 		filtered, hadAAAA, kept, stripped := w.filterUpstreamAAAA(m)
 		if hadAAAA && kept > 0 {
@@ -503,6 +507,13 @@ func (w *responseWriter) WriteMsg(m *dns.Msg) error {
 			dnsutil.SetEDE(m, dns.ExtendedErrorCodeForgedAnswer, "DNS64 filtered IPv4-mapped AAAA")
 		}
 		return w.ResponseWriter.WriteMsg(m)
+	}
+	if havePiece {
+		for _, rr := range synth.Answer {
+			if rr.Header().Ttl > pieceTTL {
+				rr.Header().Ttl = pieceTTL
+			}
+		}
 	}
 	Synthesised.Inc()
 	return w.ResponseWriter.WriteMsg(synth)
@@ -895,6 +906,27 @@ func isCachedFailureResponse(ctx context.Context, m *dns.Msg) bool {
 		return true
 	}
 	return hasExtendedError(m, dns.ExtendedErrorCodeCachedError)
+}
+
+// smallestRecordTTL returns the smallest TTL among the records of m (OPT
+// apart), and whether it has any.
+func smallestRecordTTL(m *dns.Msg) (uint32, bool) {
+	var (
+		smallest uint32
+		found    bool
+	)
+	for _, section := range [][]dns.RR{m.Answer, m.Ns, m.Extra} {
+		for _, rr := range section {
+			h := rr.Header()
+			if h.Rrtype == dns.TypeOPT {
+				continue
+			}
+			if !found || h.Ttl < smallest {
+				smallest, found = h.Ttl, true
+			}
+		}
+	}
+	return smallest, found
 }
 
 // negativeAAAATTL returns the SOA-derived minimum negative TTL of
